@@ -721,6 +721,55 @@ def r6_nan_free_fit_inputs(ctx):
     ctx.floor("zero-prone divisions in fitting estimators", n, 3)
 
 
+def r7_documented_baseline_window(ctx):
+    """deviation_from_baseline documents its baseline as the initial 10 %
+    of the curve: the window is that fraction of the array it is given -
+    a number of samples fixed in the code (a floor of 50 points, say) ties
+    the estimate to the sampling: for a short curve the window then covers
+    part of the indentation and the threshold is computed from contact
+    data."""
+    import re as _re
+    pm = ctx.repo.mod("poc")
+    f = pm.func("poc_deviation_from_baseline")
+    ctx.analysed(f)
+    doc = ast.get_docstring(f) or ""
+    m = _re.search(r"initial\s+(\d+)\s*%", doc)
+    if not m:
+        raise Undecided("poc_deviation_from_baseline no longer documents "
+                        "the baseline fraction")
+    pct = int(m.group(1))
+    R = Resolver(f, keep={f.args.args[0].arg})
+    arr = f.args.args[0].arg
+    n = 0
+    for st in walk_no_nested(f, False):
+        if not (isinstance(st, ast.Assign) and isinstance(
+                st.value, ast.Subscript) and norm(st.value.value) == arr
+                and isinstance(st.value.slice, ast.Slice)
+                and st.value.slice.lower is None
+                and st.value.slice.upper is not None
+                and st.value.slice.step is None):
+            continue
+        up = R.text(st.value.slice.upper).replace(" ", "")
+        n += 1
+        frac = pct / 100
+        size = (f"{arr}.size", f"len({arr})", f"{arr}.shape[0]")
+        forms = set()
+        for sz in size:
+            forms |= {f"int({sz}*{frac})", f"int({frac}*{sz})",
+                      f"int({sz}/{100 // pct})", f"{sz}//{100 // pct}",
+                      f"int({sz}*{pct}/100)", f"int({pct}*{sz}/100)",
+                      f"{sz}*{pct}//100", f"{pct}*{sz}//100"}
+        ctx.check(up in forms, st,
+                  f"baseline window = first {pct} % of the curve ({up})",
+                  f"the baseline of deviation_from_baseline is "
+                  f"`{arr}[:{R.text(st.value.slice.upper)}]`, not the "
+                  f"documented initial {pct} % of the curve: the window no "
+                  "longer scales with the array (for a short curve it "
+                  "reaches into the indentation, the deviation threshold "
+                  "explodes and the contact point is found far too late)")
+    ctx.floor("baseline windows in deviation_from_baseline", n, 1)
+
+
 RULES = [
     ("C08-R1", "returned index invariant under a*force + b (scale types)",
      r1_affine_invariance),
@@ -733,4 +782,6 @@ RULES = [
      r5_index_range),
     ("C08-R6", "no NaN reaches the optimiser of a fitting estimator for "
      "constant data or a curve without baseline", r6_nan_free_fit_inputs),
+    ("C08-R7", "the baseline window of deviation_from_baseline is the "
+     "documented fraction of the curve", r7_documented_baseline_window),
 ]
